@@ -168,6 +168,9 @@ Section Main.
     pose proof (zlen_nonneg sep). pose proof (zlen_nonneg (join sep (t1 :: ts))). lia.
   Qed.
 
+  Lemma join_cons2 (sep t t1 : bytes) (ts : list bytes) : join sep (t :: t1 :: ts) = t ++ sep ++ join sep (t1 :: ts).
+  Proof. reflexivity. Qed.
+
   Lemma frame_set_offset p o : frame p (set_offset p o). Proof. repeat split. Qed.
   Lemma grown_set_offset p o : grown p (set_offset p o). Proof. split; [cbn; lia|]. intros _. repeat split. Qed.
   Lemma frame_set_depth p o : frame p (set_depth p o). Proof. repeat split. Qed.
@@ -206,7 +209,7 @@ Section Main.
       + cbn [print_array_elements]. exists true, p2. split; [reflexivity|]. split; [exact F2|]. split; [|reflexivity].
         intros _. exists [t]. split; [cbn [map opt_all]; rewrite Rt; reflexivity|]. cbn [join].
         split; [exact TA2|]. split; [exact Dp2|exact G2].
-      + destruct F2 as (Ff2 & Fn2 & Fr2).
+      + pose proof F2 as (Ff2 & Fn2 & Fr2).
         rewrite Ff2.
         set (fmt := pb_format p) in *. set (len := if fmt then 2 else 1).
         assert (Hlen : 1 <= len <= 2) by (unfold len; destruct fmt; lia).
@@ -214,16 +217,16 @@ Section Main.
         rewrite E3. cbn [bind].
         pose proof (sep_len fmt) as SL. fold len in SL.
         assert (Hroom2 : forall k, room p k -> room p2 k).
-        { intros k R. eapply room_step; [|exact G2|exact R]. repeat split; assumption. }
+        { intros k R. eapply room_step; [exact F2|exact G2|exact R]. }
         destruct ok3; cbn [negb].
-        2: { exists false, p3. split; [reflexivity|]. split; [eapply frame_trans; [repeat split; eassumption|exact F3]|].
+        2: { exists false, p3. split; [reflexivity|]. split; [eapply frame_trans; [exact F2|exact F3]|].
              split; [discriminate|]. intros txts Ht R. cbn [map] in Ht.
              apply opt_all_cons in Ht as (t0 & ts & Rt0 & Hts & ->). rewrite Rt in Rt0. injection Rt0 as <-.
              apply opt_all_cons in Hts as (t1 & ts1 & _ & _ & ->).
-             apply C3. apply Hroom2. eapply room_mono; [exact R|]. cbn [join]. rewrite !zlen_app, SL.
+             apply C3. apply Hroom2. eapply room_mono; [exact R|]. rewrite join_cons2, !zlen_app, SL.
              pose proof (zlen_nonneg (join (sep_of fmt) (t1 :: ts1))). lia. }
         destruct (S3 eq_refl) as (TA3 & Len3 & Dp3 & G3).
-        destruct F3 as (Ff3 & Fn3 & Fr3). rewrite Ff3, Ff2. fold fmt.
+        pose proof F3 as (Ff3 & Fn3 & Fr3). rewrite Ff3, Ff2. fold fmt.
         destruct TA3 as (rest3 & B3 & O3 & _).
         replace ([ch_comma] ++ (if fmt then [ch_space] else []) ++ [0]) with (sep_of fmt ++ [0]) by (destruct fmt; reflexivity).
         destruct (put_spec p3 (T ++ t) rest3 (sep_of fmt ++ [0]) 0 B3 ltac:(lia)) as (rest4 & p4 & E4 & P4 & B4).
@@ -237,26 +240,287 @@ Section Main.
           - unfold p5. subst p4. cbn. rewrite O3, !zlen_app. lia.
           - rewrite zlen_cons. pose proof (zlen_nonneg rest4). lia. }
         assert (F5 : frame p p5).
-        { unfold p5. subst p4. repeat split; cbn; congruence. }
+        { eapply frame_trans; [exact F2|]. eapply frame_trans; [exact F3|]. unfold p5. subst p4. repeat split. }
         assert (G5 : grown p p5).
-        { eapply grown_trans; [repeat split; eassumption|exact G2|].
-          eapply grown_trans; [repeat split; eassumption|exact G3|]. unfold p5. subst p4. split; [cbn; lia|]. intros _. repeat split. }
-        assert (Dp5 : pb_depth p5 = pb_depth p) by (unfold p5; subst p4; cbn; congruence).
+        { eapply grown_trans; [exact F2|exact G2|].
+          eapply grown_trans; [exact F3|exact G3|]. unfold p5. subst p4. split; [cbn; lia|]. intros _. repeat split. }
+        assert (Dp5 : pb_depth p5 = pb_depth p) by (unfold p5; subst p4; cbn; rewrite Dp3; exact Dp2).
         destruct (IH Hi2 p5 _ TA5 ltac:(lia)) as (ok6 & p6 & E6 & F6 & S6 & C6).
         rewrite E6. exists ok6, p6. split; [reflexivity|]. split; [eapply frame_trans; [exact F5|exact F6]|].
-        destruct F5 as (Ff5 & Fn5 & Fr5). rewrite Ff5, Dp5 in S6, C6. fold fmt in S6, C6.
+        pose proof F5 as (Ff5 & Fn5 & Fr5). rewrite Ff5, Dp5 in S6, C6. fold fmt in S6, C6.
         split.
         * intros Hok. destruct (S6 Hok) as (ts & Hts & TA6 & Dp6 & G6).
           exists (t :: ts). split; [cbn [map opt_all] in Hts |- *; rewrite Rt, Hts; reflexivity|].
-          split; [|split; [congruence|eapply grown_trans; [repeat split; eassumption|exact G5|exact G6]]].
+          split; [|split; [congruence|eapply grown_trans; [exact F5|exact G5|exact G6]]].
           cbn [map] in Hts. apply opt_all_cons in Hts as (t1 & ts1 & _ & _ & ->).
-          cbn [join]. replace (T ++ t ++ sep_of fmt ++ join (sep_of fmt) (t1 :: ts1)) with (((T ++ t) ++ sep_of fmt) ++ join (sep_of fmt) (t1 :: ts1)) by (rewrite <- !app_assoc; reflexivity).
+          rewrite join_cons2. replace (T ++ t ++ sep_of fmt ++ join (sep_of fmt) (t1 :: ts1)) with (((T ++ t) ++ sep_of fmt) ++ join (sep_of fmt) (t1 :: ts1)) by (rewrite <- !app_assoc; reflexivity).
           exact TA6.
         * intros txts Ht R. cbn [map] in Ht.
           apply opt_all_cons in Ht as (t0 & ts & Rt0 & Hts & ->). rewrite Rt in Rt0. injection Rt0 as <-.
           apply (C6 ts Hts).
-          eapply room_step; [repeat split; eassumption|exact G5|]. eapply room_mono; [exact R|].
+          eapply room_step; [exact F5|exact G5|]. eapply room_mono; [exact R|].
           cbn [map] in Hts. apply opt_all_cons in Hts as (t1 & ts1 & _ & _ & ->).
-          cbn [join]. rewrite !zlen_app. lia.
+          rewrite join_cons2, !zlen_app. lia.
+  Qed.
+
+  (** ---------------------------------------------------------------- the loop of print_object *)
+  Definition ind (fmt : bool) (d : Z) : bytes := if fmt then tabs d else [].
+  Definition col (fmt : bool) : bytes := [ch_colon] ++ (if fmt then [ch_tab] else []).
+  Definition tl (fmt hn : bool) : bytes := (if hn then [ch_comma] else []) ++ (if fmt then [ch_nl] else []).
+  Lemma member_text_eq fmt d k v last :
+    member_text fmt d k v last = ind fmt d ++ render_string k ++ col fmt ++ v ++ tl fmt (negb last).
+  Proof. unfold member_text, ind, col, tl. destruct fmt, last; cbn [negb]; norm_list; reflexivity. Qed.
+  Lemma ind_len fmt d : 0 <= d -> zlen (ind fmt d) = if fmt then d else 0.
+  Proof. intros H. unfold ind. destruct fmt; [apply zlen_tabs; exact H|reflexivity]. Qed.
+  Lemma col_len fmt : zlen (col fmt) = if fmt then 2 else 1.
+  Proof. destruct fmt; reflexivity. Qed.
+  Lemma tl_len fmt hn : zlen (tl fmt hn) = (if fmt then 1 else 0) + (if hn then 1 else 0).
+  Proof. destruct fmt, hn; reflexivity. Qed.
+  Lemma render_string_len k : 2 <= zlen (render_string k).
+  Proof.
+    destruct k as [k|]; cbn [render_string]; [|unfold zlen; cbn; lia].
+    rewrite zlen_cons, zlen_app, zlen_cons, zlen_nil. pose proof (zlen_nonneg (escape_body (cstr k))). lia.
+  Qed.
+
+  Lemma indent_step p T : text_at p T -> 0 <= pb_depth p ->
+    exists ok p3,
+      (if pb_format p then
+         '(ok, p1) <- ensure p (pb_depth p) ;;
+         if negb ok then Ok (false, p1)
+         else p2 <- put p1 0 (tabs (pb_depth p1)) ;; Ok (true, set_offset p2 (pb_offset p2 + pb_depth p2))
+       else Ok (true, p)) = Ok (ok, p3) /\ frame p p3 /\
+      (room p (zlen T + zlen (ind (pb_format p) (pb_depth p)) + 1) -> ok = true) /\
+      (ok = true -> text_at p3 (T ++ ind (pb_format p) (pb_depth p)) /\ pb_depth p3 = pb_depth p /\ grown p p3).
+  Proof.
+    intros HT Hd. destruct (pb_format p) eqn:Hf.
+    - pose proof (zlen_tabs (pb_depth p) Hd) as TL.
+      destruct (write_token oracle junk p T (tabs (pb_depth p)) (pb_depth p) HT Hd ltac:(lia)) as (ok1 & p1 & E1 & F1 & C1 & S1).
+      rewrite E1. cbn [bind]. destruct ok1; cbn [negb].
+      2: { exists false, p1. split; [reflexivity|]. split; [exact F1|]. split; [|discriminate].
+           intros R. apply C1. unfold ind in R. rewrite TL in R. exact R. }
+      destruct (S1 eq_refl) as (D1 & p2 & E2 & F2 & G2 & D2 & O2 & Len2 & Adv & _).
+      rewrite D1, E2. cbn [bind]. eexists true, _. split; [reflexivity|].
+      split; [eapply frame_trans; [exact F2|apply frame_set_offset]|]. split; [reflexivity|]. intros _.
+      rewrite D2. rewrite <- TL at 1. unfold ind.
+      split; [apply (Adv (tabs (pb_depth p)) []); rewrite app_nil_r; reflexivity|].
+      split; [exact D2|]. eapply grown_trans; [exact F2|exact G2|apply grown_set_offset].
+    - exists true, p. split; [reflexivity|]. split; [apply frame_refl|]. split; [reflexivity|]. intros _.
+      unfold ind. rewrite app_nil_r. split; [exact HT|]. split; [reflexivity|apply grown_refl].
+  Qed.
+
+  Definition has_next (l : list node) : bool := match l with [] => false | _ => true end.
+
+  Lemma members_text_cons fmt d k v r :
+    members_text fmt d ((k, v) :: r) = member_text fmt d k v (match r with [] => true | _ => false end) ++ members_text fmt d r.
+  Proof. reflexivity. Qed.
+
+  Lemma combine_last (next : list node) (ts : list bytes) (f : node -> option bytes) :
+    opt_all (map f next) = Some ts ->
+    negb (match combine (map n_key next) ts with [] => true | _ => false end) = has_next next.
+  Proof.
+    destruct next as [|c' n']; cbn [map].
+    - intros H. cbn in H. injection H as <-. reflexivity.
+    - intros H. apply opt_all_cons in H as (t1 & ts1 & _ & _ & ->). reflexivity.
+  Qed.
+
+  Lemma members_spec pv : forall l, Forall (spec_of pv) l -> forallb ints_ok l = true ->
+    forall p T, text_at p T -> 0 <= pb_depth p ->
+    exists ok p', print_object_members oracle junk pv l p = Ok (ok, p') /\ frame p p' /\
+      (ok = true -> exists txts, opt_all (map (render (pb_format p) (pb_depth p)) l) = Some txts /\
+                    text_at p' (T ++ members_text (pb_format p) (pb_depth p) (combine (map n_key l) txts)) /\
+                    pb_depth p' = pb_depth p /\ grown p p') /\
+      (forall txts, opt_all (map (render (pb_format p) (pb_depth p)) l) = Some txts ->
+                    room p (zlen T + zlen (members_text (pb_format p) (pb_depth p) (combine (map n_key l) txts)) + 2) -> ok = true).
+  Proof.
+    induction 1 as [|c next Hc Hnext IH]; intros Hi p T HT Hd.
+    - exists true, p. split; [reflexivity|]. split; [apply frame_refl|]. split; [|reflexivity].
+      intros _. exists []. split; [reflexivity|]. cbn [map combine members_text]. rewrite app_nil_r.
+      split; [exact HT|]. split; [reflexivity|apply grown_refl].
+    - cbn [forallb] in Hi. apply andb_true_iff in Hi as (Hi1 & Hi2).
+      cbn [print_object_members].
+      set (fmt := pb_format p) in *. set (d := pb_depth p) in *.
+      (* what the completeness side knows: the text of this member and of the rest *)
+      assert (Hsplit : forall txts, opt_all (map (render fmt d) (c :: next)) = Some txts ->
+                exists v ts, render fmt d c = Some v /\ opt_all (map (render fmt d) next) = Some ts /\
+                  zlen (members_text fmt d (combine (map n_key (c :: next)) txts)) =
+                  zlen (ind fmt d) + zlen (render_string (n_key c)) + zlen (col fmt) + zlen v + zlen (tl fmt (has_next next))
+                  + zlen (members_text fmt d (combine (map n_key next) ts)) /\ txts = v :: ts).
+      { intros txts Ht. cbn [map] in Ht. apply opt_all_cons in Ht as (v & ts & Rv & Hts & ->).
+        exists v, ts. split; [exact Rv|]. split; [exact Hts|]. split; [|reflexivity].
+        cbn [map combine]. rewrite members_text_cons, member_text_eq, (combine_last next ts _ Hts). rewrite !zlen_app. lia. }
+      pose proof (ind_len fmt d Hd) as IL. pose proof (col_len fmt) as CL. pose proof (tl_len fmt (has_next next)) as TLn.
+      pose proof (render_string_len (n_key c)) as RL.
+      assert (Hpos : forall ts, 0 <= zlen (members_text fmt d (combine (map n_key next) ts))) by (intros; apply zlen_nonneg).
+      (* indentation *)
+      destruct (indent_step p T HT Hd) as (ok3 & p3 & E3 & F3 & C3 & S3). fold fmt d in E3, C3, S3.
+      rewrite E3. cbn [bind]. destruct ok3; cbn [negb].
+      2: { exists false, p3. split; [reflexivity|]. split; [exact F3|]. split; [discriminate|].
+           intros txts Ht R. destruct (Hsplit txts Ht) as (v & ts & Rv & Hts & Hl & ->).
+           apply C3. eapply room_mono; [exact R|]. pose proof (zlen_nonneg v). pose proof (Hpos ts).
+           destruct fmt, (has_next next); lia. }
+      destruct (S3 eq_refl) as (TA3 & D3 & G3).
+      (* key *)
+      destruct (print_string_ptr_prints oracle junk (n_key c) p3 _ TA3) as (ok4 & p4 & E4 & F4 & S4 & C4).
+      rewrite E4. cbn [bind].
+      assert (Fp3 : forall k, room p k -> room p3 k) by (intros k R; eapply room_step; [exact F3|exact G3|exact R]).
+      destruct ok4; cbn [negb].
+      2: { exists false, p4. split; [reflexivity|]. split; [eapply frame_trans; [exact F3|exact F4]|]. split; [discriminate|].
+           intros txts Ht R. destruct (Hsplit txts Ht) as (v & ts & Rv & Hts & Hl & ->).
+           apply C4. apply Fp3. eapply room_mono; [exact R|]. pose proof (zlen_nonneg v). pose proof (Hpos ts).
+           rewrite zlen_app. destruct fmt, (has_next next); lia. }
+      destruct (S4 eq_refl) as (D4 & Dp4 & Len4 & G4).
+      destruct (update_offset_spec p4 _ _ D4 (render_string_nz (n_key c))) as (p5 & E5 & P5 & TA5 & _).
+      rewrite E5. cbn [bind].
+      assert (F5 : frame p p5) by (subst p5; eapply frame_trans; [exact F3|]; eapply frame_trans; [exact F4|apply frame_set_offset]).
+      assert (G5 : grown p p5).
+      { subst p5. eapply grown_trans; [exact F3|exact G3|]. eapply grown_trans; [exact F4|exact G4|apply grown_set_offset]. }
+      assert (D5 : pb_depth p5 = d) by (subst p5; cbn; rewrite Dp4; exact D3).
+      pose proof F5 as (Ff5 & _ & _). fold fmt in Ff5. rewrite Ff5.
+      (* colon *)
+      set (T5 := (T ++ ind fmt d) ++ render_string (n_key c)) in *.
+      destruct (write_token oracle junk p5 T5 (col fmt) (if fmt then 2 else 1) TA5 ltac:(destruct fmt; lia) ltac:(lia))
+        as (ok6 & p6 & E6 & F6 & C6 & S6).
+      rewrite E6. cbn [bind].
+      assert (Fp5 : forall k, room p k -> room p5 k) by (intros k R; eapply room_step; [exact F5|exact G5|exact R]).
+      destruct ok6; cbn [negb].
+      2: { exists false, p6. split; [reflexivity|]. split; [eapply frame_trans; [exact F5|exact F6]|]. split; [discriminate|].
+           intros txts Ht R. destruct (Hsplit txts Ht) as (v & ts & Rv & Hts & Hl & ->).
+           apply C6. apply Fp5. eapply room_mono; [exact R|]. pose proof (zlen_nonneg v). pose proof (Hpos ts).
+           unfold T5. rewrite !zlen_app. destruct fmt, (has_next next); lia. }
+      destruct (S6 eq_refl) as (D6 & p7 & E7 & F7 & G7 & D7 & O7 & Len7 & Adv7 & _).
+      pose proof F6 as (Ff6 & _ & _). rewrite Ff6, Ff5. fold (col fmt). rewrite E7. cbn [bind].
+      rewrite <- CL.
+      pose proof (Adv7 (col fmt) [] ltac:(rewrite app_nil_r; reflexivity)) as TA8.
+      set (p8 := set_offset p7 (pb_offset p7 + zlen (col fmt))) in *.
+      assert (F8 : frame p p8) by (eapply frame_trans; [exact F5|]; eapply frame_trans; [exact F7|apply frame_set_offset]).
+      assert (G8 : grown p p8) by (eapply grown_trans; [exact F5|exact G5|]; eapply grown_trans; [exact F7|exact G7|apply grown_set_offset]).
+      assert (D8 : pb_depth p8 = d) by (unfold p8; cbn; rewrite D7; exact D5).
+      (* value *)
+      destruct (Hc Hi1 p8 _ TA8 ltac:(lia)) as (ok9 & p9 & E9 & F9 & S9 & C9).
+      pose proof F8 as (Ff8 & _ & _). fold fmt in Ff8. rewrite Ff8, D8 in S9, C9.
+      rewrite E9. cbn [bind].
+      assert (Fp8 : forall k, room p k -> room p8 k) by (intros k R; eapply room_step; [exact F8|exact G8|exact R]).
+      destruct ok9; cbn [negb].
+      2: { exists false, p9. split; [reflexivity|]. split; [eapply frame_trans; [exact F8|exact F9]|]. split; [discriminate|].
+           intros txts Ht R. destruct (Hsplit txts Ht) as (v & ts & Rv & Hts & Hl & ->).
+           apply (C9 v Rv). apply Fp8. eapply room_mono; [exact R|]. pose proof (Hpos ts).
+           unfold T5. rewrite !zlen_app. destruct fmt, (has_next next); lia. }
+      destruct (S9 eq_refl) as (v & Rv & D9 & Dp9 & Len9 & G9).
+      pose proof (render_nz c Hi1 _ _ _ Rv) as Hnz.
+      destruct (update_offset_spec p9 _ _ D9 Hnz) as (p10 & E10 & P10 & TA10 & _).
+      rewrite E10. cbn [bind].
+      assert (F10 : frame p p10) by (subst p10; eapply frame_trans; [exact F8|]; eapply frame_trans; [exact F9|apply frame_set_offset]).
+      assert (G10 : grown p p10).
+      { subst p10. eapply grown_trans; [exact F8|exact G8|]. eapply grown_trans; [exact F9|exact G9|apply grown_set_offset]. }
+      assert (D10 : pb_depth p10 = d) by (subst p10; cbn; exact Dp9).
+      pose proof F10 as (Ff10 & _ & _). fold fmt in Ff10. rewrite Ff10.
+      (* comma / newline *)
+      fold (has_next next).
+      set (T10 := (T5 ++ col fmt) ++ v) in *.
+      destruct (write_token oracle junk p10 T10 (tl fmt (has_next next) ++ [0])
+                  ((if fmt then 1 else 0) + (if has_next next then 1 else 0) + 1) TA10
+                  ltac:(destruct fmt, (has_next next); lia) ltac:(rewrite zlen_app, zlen_cons, zlen_nil; lia))
+        as (ok11 & p11 & E11 & F11 & C11 & S11).
+      rewrite E11. cbn [bind].
+      assert (Fp10 : forall k, room p k -> room p10 k) by (intros k R; eapply room_step; [exact F10|exact G10|exact R]).
+      destruct ok11; cbn [negb].
+      2: { exists false, p11. split; [reflexivity|]. split; [eapply frame_trans; [exact F10|exact F11]|]. split; [discriminate|].
+           intros txts Ht R. destruct (Hsplit txts Ht) as (v0 & ts & Rv0 & Hts & Hl & ->).
+           rewrite Rv in Rv0. injection Rv0 as <-.
+           apply C11. apply Fp10. eapply room_mono; [exact R|]. pose proof (Hpos ts).
+           unfold T10, T5. rewrite !zlen_app. destruct fmt, (has_next next); lia. }
+      destruct (S11 eq_refl) as (D11 & p12 & E12 & F12 & G12 & D12 & O12 & Len12 & Adv12 & _).
+      pose proof F11 as (Ff11 & _ & _). rewrite Ff11, Ff10.
+      replace ((if has_next next then [ch_comma] else []) ++ (if fmt then [ch_nl] else []) ++ [0]) with (tl fmt (has_next next) ++ [0])
+        by (unfold tl; rewrite <- app_assoc; reflexivity).
+      rewrite E12. cbn [bind]. rewrite <- TLn.
+      pose proof (Adv12 (tl fmt (has_next next)) [0] eq_refl) as TA13.
+      set (p13 := set_offset p12 (pb_offset p12 + zlen (tl fmt (has_next next)))) in *.
+      assert (F13 : frame p p13) by (eapply frame_trans; [exact F10|]; eapply frame_trans; [exact F12|apply frame_set_offset]).
+      assert (G13 : grown p p13) by (eapply grown_trans; [exact F10|exact G10|]; eapply grown_trans; [exact F12|exact G12|apply grown_set_offset]).
+      assert (D13 : pb_depth p13 = d) by (unfold p13; cbn; rewrite D12; exact D10).
+      (* the remaining members *)
+      destruct (IH Hi2 p13 _ TA13 ltac:(lia)) as (ok14 & p14 & E14 & F14 & S14 & C14).
+      pose proof F13 as (Ff13 & _ & _). fold fmt in Ff13. rewrite Ff13, D13 in S14, C14.
+      rewrite E14. exists ok14, p14. split; [reflexivity|]. split; [eapply frame_trans; [exact F13|exact F14]|].
+      split.
+      + intros Hok. destruct (S14 Hok) as (ts & Hts & TA14 & Dp14 & G14).
+        exists (v :: ts). split; [cbn [map opt_all]; rewrite Rv, Hts; reflexivity|].
+        split; [|split; [exact Dp14|eapply grown_trans; [exact F13|exact G13|exact G14]]].
+        cbn [map combine]. rewrite members_text_cons, member_text_eq, (combine_last next ts _ Hts).
+        replace (T ++ (ind fmt d ++ render_string (n_key c) ++ col fmt ++ v ++ tl fmt (has_next next)) ++
+                 members_text fmt d (combine (map n_key next) ts))
+          with ((T10 ++ tl fmt (has_next next)) ++ members_text fmt d (combine (map n_key next) ts))
+          by (unfold T10, T5; rewrite <- !app_assoc; reflexivity).
+        exact TA14.
+      + intros txts Ht R. destruct (Hsplit txts Ht) as (v0 & ts & Rv0 & Hts & Hl & ->).
+        rewrite Rv in Rv0. injection Rv0 as <-.
+        apply (C14 ts Hts). eapply room_step; [exact F13|exact G13|]. eapply room_mono; [exact R|].
+        unfold T10, T5. rewrite !zlen_app. lia.
+  Qed.
+
+  (** ---------------------------------------------------------------- containers *)
+  Lemma text_at_set_depth p T x : text_at p T -> text_at (set_depth p x) T.
+  Proof. intros (rest & (B1 & B2) & O & S). exists rest. repeat split; assumption. Qed.
+  Lemma done_set_depth p T t x : done p T t -> done (set_depth p x) T t.
+  Proof. intros (rest & (B1 & B2) & O). exists rest. repeat split; try assumption; apply O. Qed.
+  Lemma done_reassoc p T a b : done p (T ++ a) b -> done p T (a ++ b).
+  Proof.
+    intros (rest & (B1 & B2) & O). exists rest. split; [split|].
+    - rewrite B1. f_equal. rewrite <- !app_assoc. reflexivity.
+    - rewrite !zlen_app in *. lia.
+    - rewrite !zlen_app in *. pose proof (zlen_nonneg a). lia.
+  Qed.
+
+  Lemma array_spec pv ch : Forall (spec_of pv) ch -> forallb ints_ok ch = true ->
+    forall p T, text_at p T -> 0 <= pb_depth p ->
+    exists ok p', print_array oracle junk pv ch p = Ok (ok, p') /\ frame p p' /\
+      (ok = true -> exists txts, opt_all (map (render (pb_format p) (pb_depth p + 1)) ch) = Some txts /\
+                    done p' T ([ch_lbrack] ++ join (sep_of (pb_format p)) txts ++ [ch_rbrack]) /\ pb_depth p' = pb_depth p /\
+                    zlen T + zlen ([ch_lbrack] ++ join (sep_of (pb_format p)) txts ++ [ch_rbrack]) + 2 <= pb_length p' /\ grown p p') /\
+      (forall txts, opt_all (map (render (pb_format p) (pb_depth p + 1)) ch) = Some txts ->
+                    room p (zlen T + zlen ([ch_lbrack] ++ join (sep_of (pb_format p)) txts ++ [ch_rbrack]) + 2) -> ok = true).
+  Proof.
+    intros Hch Hi p T HT Hd. unfold print_array.
+    set (fmt := pb_format p) in *. set (d := pb_depth p) in *.
+    assert (Hlen : forall txts : list bytes, zlen ([ch_lbrack] ++ join (sep_of fmt) txts ++ [ch_rbrack]) = zlen (join (sep_of fmt) txts) + 2).
+    { intros. rewrite !zlen_app, !zlen_cons, zlen_nil. lia. }
+    destruct (write_token oracle junk p T [ch_lbrack] 1 HT ltac:(lia) ltac:(unfold zlen; cbn; lia)) as (ok1 & p1 & E1 & F1 & C1 & S1).
+    rewrite E1. cbn [bind]. destruct ok1; cbn [negb].
+    2: { exists false, p1. split; [reflexivity|]. split; [exact F1|]. split; [discriminate|].
+         intros txts _ R. apply C1. eapply room_mono; [exact R|]. rewrite Hlen. pose proof (zlen_nonneg (join (sep_of fmt) txts)). lia. }
+    destruct (S1 eq_refl) as (D1 & p2 & E2 & F2 & G2 & D2 & O2 & Len2 & Adv2 & _).
+    rewrite E2. cbn [bind].
+    pose proof (Adv2 [ch_lbrack] [] eq_refl) as TA3. change (zlen [ch_lbrack]) with 1 in TA3.
+    apply (text_at_set_depth _ _ (pb_depth p2 + 1)) in TA3.
+    set (p3 := set_depth (set_offset p2 (pb_offset p2 + 1)) (pb_depth p2 + 1)) in *.
+    assert (F3 : frame p p3) by (eapply frame_trans; [exact F2|repeat split]).
+    assert (G3 : grown p p3) by (eapply grown_trans; [exact F2|exact G2|split; [cbn; lia|intros _; repeat split]]).
+    assert (D3 : pb_depth p3 = d + 1) by (unfold p3; cbn; rewrite D2; reflexivity).
+    destruct (elements_spec pv ch Hch Hi p3 _ TA3 ltac:(lia)) as (ok4 & p4 & E4 & F4 & S4 & C4).
+    pose proof F3 as (Ff3 & _ & _). fold fmt in Ff3. rewrite Ff3, D3 in S4, C4.
+    rewrite E4. cbn [bind].
+    destruct ok4; cbn [negb].
+    2: { exists false, p4. split; [reflexivity|]. split; [eapply frame_trans; [exact F3|exact F4]|]. split; [discriminate|].
+         intros txts Ht R. apply (C4 txts Ht). eapply room_step; [exact F3|exact G3|]. eapply room_mono; [exact R|].
+         rewrite Hlen, zlen_app, zlen_cons, zlen_nil. lia. }
+    destruct (S4 eq_refl) as (txts & Ht & TA4 & D4 & G4).
+    destruct (write_token oracle junk p4 _ [ch_rbrack; 0] 2 TA4 ltac:(lia) ltac:(unfold zlen; cbn; lia)) as (ok5 & p5 & E5 & F5 & C5 & S5).
+    rewrite E5. cbn [bind].
+    assert (F4' : frame p p4) by (eapply frame_trans; [exact F3|exact F4]).
+    assert (G4' : grown p p4) by (eapply grown_trans; [exact F3|exact G3|exact G4]).
+    destruct ok5; cbn [negb].
+    2: { exists false, p5. split; [reflexivity|]. split; [eapply frame_trans; [exact F4'|exact F5]|]. split; [discriminate|].
+         intros txts' Ht' R. rewrite Ht in Ht'. injection Ht' as <-.
+         apply C5. eapply room_step; [exact F4'|exact G4'|]. eapply room_mono; [exact R|].
+         rewrite Hlen, !zlen_app, zlen_cons, zlen_nil. lia. }
+    destruct (S5 eq_refl) as (D5 & p6 & E6 & F6 & G6 & D6 & O6 & Len6 & _ & Dn6).
+    rewrite E6. cbn [bind].
+    eexists true, _. split; [reflexivity|]. split; [eapply frame_trans; [exact F4'|]; eapply frame_trans; [exact F6|repeat split]|].
+    split; [|reflexivity]. intros _. exists txts. split; [exact Ht|].
+    split; [apply done_set_depth; apply done_reassoc; apply done_reassoc; apply (Dn6 [ch_rbrack]); reflexivity|].
+    split; [cbn; rewrite D6, D4; lia|].
+    split; [cbn [pb_length set_depth]; rewrite Hlen; rewrite !zlen_app, zlen_cons, zlen_nil in Len6; lia|].
+    eapply grown_trans; [exact F4'|exact G4'|]. eapply grown_trans; [exact F6|exact G6|split; [cbn; lia|intros _; repeat split]].
   Qed.
 End Main.
